@@ -128,11 +128,14 @@ Theorem aes_pure :
 Proof. exact aesm_api_pure. Qed.
 Print Assumptions aes_pure.
 
-(* options are applied left to right (last mode option wins, an empty IV is ignored) *)
-Theorem aes_options_left_to_right :
-  forall opts o, aesm_args_of (opts ++ [o]) = aesm_apply_option (aesm_args_of opts) o.
-Proof. exact aesm_args_of_snoc. Qed.
-Print Assumptions aes_options_left_to_right.
+(* mode and IV selection: the last mode option wins (default CBC), the last non-empty IV
+   wins (an empty IV is ignored; default 00 01 .. 0f) *)
+Theorem aes_option_selection :
+  forall opts,
+    aa_mode (aesm_args_of opts) = aess_selected_mode opts /\
+    aa_iv (aesm_args_of opts) = aess_selected_iv opts.
+Proof. exact aesm_args_of_selected. Qed.
+Print Assumptions aes_option_selection.
 
 (* ---- the defect fixed by ca0d742 (D8): the original padding step appended into the
    caller's spare capacity: backing[:5] of a 32-byte array => bytes 5..15 become 0x0b *)
